@@ -436,7 +436,19 @@ func (c *Ctx) bvbin(op string, a, b *Term) *Term {
 		if a.IsConst() {
 			a, b = b, a
 		}
+		if b.IsConst() {
+			// (x * k1) * k2 and (x << s) * k2 fold into one constant factor
+			if a.Op == "bvmul" && a.Args[1].IsConst() {
+				return c.bvbin("bvmul", a.Args[0], c.Const(a.Args[1].V*b.V, w))
+			}
+			if a.Op == "bvshl" && a.Args[1].IsConst() && a.Args[1].V < uint64(w) && bits.OnesCount64(b.V) != 1 {
+				return c.bvbin("bvmul", a.Args[0], c.Const(b.V<<a.Args[1].V, w))
+			}
+		}
 		if b.IsConst() && bits.OnesCount64(b.V) == 1 {
+			if a.Op == "bvmul" && a.Args[1].IsConst() {
+				return c.bvbin("bvmul", a.Args[0], c.Const(a.Args[1].V*b.V, w))
+			}
 			return c.bvbin("bvshl", a, c.Const(uint64(bits.TrailingZeros64(b.V)), w))
 		}
 		if a.IsConst() && a.V == 1 {
@@ -515,6 +527,9 @@ func (c *Ctx) bvbin(op string, a, b *Term) *Term {
 		}
 		if c.Maybe1(a) == 0 {
 			return c.Const(0, w)
+		}
+		if b.IsConst() && op == "bvshl" && a.Op == "bvmul" && a.Args[1].IsConst() && b.V < uint64(w) {
+			return c.bvbin("bvmul", a.Args[0], c.Const(a.Args[1].V<<b.V, w))
 		}
 		if b.IsConst() && op != "bvashr" {
 			k := b.V
